@@ -365,7 +365,7 @@ def jobs(tier):
     return [{"name": "describe", "h": "describe", "params": {"N": N}, "split": 8, "chunk": 20, "must_reach": ["n0", "n10", "n11"]},
             {"name": "parse", "h": "parse", "params": {"N": N}, "split": 16, "chunk": 30, "must_reach": ["shown", "oor"]}] + \
         [{"name": f"parse-cli-{t}-{'-'.join(map(str, lens))}", "h": "parse-cli", "params": {"template": t, "lens": lens, "flagsets": [1]}, "split": 16, "chunk": 25,
-          "max_paths": 200000, "must_reach": []} for t, lens in ((("T4", [9, 10]), ("T4", [9, 9, 9])) if tier == "quick" else (("T4", [9, 10, 9, 10]), ("T4", [10, 9, 9]), ("T1", [19, 19, 18]), ("T6", [12, 12])))] + \
+          "max_paths": 200000, "must_reach": []} for t, lens in ((("T4", [9, 10]), ("T4", [9, 9, 9])) if tier == "quick" else (("T4", [9, 10, 9]), ("T4", [10, 9, 9]), ("T1", [19, 19]), ("T6", [12, 12])))] + \
         [{"name": f"describe-e2e-P{P}", "h": "describe-e2e", "params": {"P": P}, "split": 8, "chunk": 20, "must_reach": [f"P{P}"]} for P in ((1, 2, 11) if tier == "quick" else (1, 2, 3, 10, 11, 12))]
 
 
